@@ -216,6 +216,17 @@ def run(ctx):
         if ml is not None and ml != "ok " + trace and RESET not in replies:
             s.disagree(case, "ok " + trace, ml)
 
+    # the same in an interpreter started with -O (a refusal must not be noticed by an assert statement)
+    oq = Stream("python-O")
+    res = common.run_under_O("C19", "optimised_sample", 1500 if ctx.thorough else 300, "C19.O/%d" % common.seed())
+    oq.evaluations += res["evaluations"]
+    oq.nontrivial.update(range(res["evaluations"]))
+    oq.samples.append({"interpreter": "python -O", "assertions_enabled": res["debug"]})
+    if res["debug"]:
+        oq.fail({"interpreter": "python -O"}, "the child interpreter did not run with -O", "python-O/not-optimised")
+    for f_ in res["failures"][:1]:
+        oq.fail(f_, "under python -O: " + f_["what"], "python-O/" + f_["signature"])
+
     # slow servers: a reply (to ENQ or to a line) that takes longer than any waiting time the sender may have; the next
     # unit is still sent only after that reply has arrived
     sl = Stream("slow-replies")
@@ -315,7 +326,30 @@ def run(ctx):
                 c2.fail(dict(case, transfer=which, trace=tr), "transfer %s while the other was under way: %s" % (which, bad[1]),
                         "concurrent/" + bad[0])
                 break
-    return [s, sl, mf, c2]
+    return [s, oq, sl, mf, c2]
+
+
+def optimised_sample(n, seed_tag):
+    """(runs in a child interpreter under -O) files x reply scripts against the oracle"""
+    r = common.rng(seed_tag)
+    bad = []
+    k = 0
+    for _ in range(n):
+        lines = gen_lines(r)
+        replies = [r.choice(REPLIES + [b"\x06"] * 6) for _ in range(r.choice([1, 3, 8]))]
+        if RESET in replies:
+            continue
+        trace, raised = run_sim(lines, replies)
+        k += 1
+        what = None
+        if raised:
+            what = ("raises", "send_message raised %s" % raised)
+        else:
+            what = oracle(lines, replies, trace)
+        if what and len(bad) < 3:
+            bad.append({"lines": [hexb(l) for l in lines], "replies": [hexb(x) for x in replies], "trace": trace,
+                        "signature": what[0], "what": what[1], "assertions_enabled": __debug__})
+    return {"evaluations": k, "failures": bad, "debug": __debug__}
 
 
 def search(ctx, disagreements):
